@@ -14,8 +14,11 @@ Oracles (on the implementation alone, independent of the Lean model):
   holder     total scorer: the holder lists exactly the handed plates once with the prescribed scores;
              save/load is the identity; concat in any order keeps the multiset of (plate, score)
   select     returned plate unobserved, not in batch, allowed by the policy, no allowed plate strictly lower;
-             None  <=>  nothing allowed; CLI writes the id or "-1"
-Tie: the same inputs go to the Lean model (`inputs`, `chunk`, `pipeline`, `split` lines).
+             None  <=>  nothing allowed; CLI writes the id or "-1"; the same on STALE score files (computed for an
+             earlier, smaller batch: they still list plates that are in the batch now)
+Not oracles (counted only; the tie reports a change): which experiment represents a repeated condition (the code keeps
+the first), balance of the chunk sizes -- neither is a clause of the property.
+Tie: the same inputs go to the Lean model (`inputs`, `chunk`, `pipeline`, `pipeline2`, `split` lines).
 """
 import copy
 import itertools
@@ -36,7 +39,9 @@ RULE = ("random small screens (1-7 plates, arity 1-3, 1-2 samples, few names/dos
         "plate-uniform masks incl. fully observed / fully unobserved), random batches (observed, unobserved and unknown ids), "
         "prescribed scores from a pool with ties, -inf and 0.0, every n_chunks in 1..candidates+3 and every chunk index, "
         "chunk files combined in all orders (<=5 chunks, thorough) or sampled orders, with no policy and with a filtering "
-        "policy; thorough adds the exhaustive (observed?, in batch?) assignment of every plate for fixed screens with <=6 plates. "
+        "policy; for the last chunk count of every case with a batch also STALE score files (scored for a prefix of the batch, so they list plates "
+        "that are in the batch now) through select_next_plate and its CLI; one wide screen with 150 plates (thorough: also 300; ids beyond a byte, "
+        "ties at -inf on large ids); thorough adds the exhaustive (observed?, in batch?) assignment of every plate for fixed screens with <=6 plates. "
         "Non-trivial: >=2 candidates, n_chunks>=2, and either a batch that conditions the plates or >=2 allowed plates with a tie or -inf.")
 
 SCORE_POOL = [float("-inf"), 0.0, 0.0, 0.5, -2.0, 1.0, 3.25, -2.0, 1e300, 1e-3]
@@ -304,6 +309,10 @@ def run_case(ctx, res, env, case, lines, expect, meta, light=False):
     atok = "none" if allowed is None else ids_tok(allowed)
     orng = ctx.subrng("c06-orders", case["seed"])
     batch_hits = any(p in batch for p in plates)
+
+    def bp():
+        # `batch_plate_ids=None` is the documented default of both functions: used for half of the empty batches
+        return None if (not batch and case["seed"] % 2 == 1) else list(batch)
     for n in case["ns"]:
         holders, files, handed_all, failed = [], [], [], None
         sizes = []
@@ -311,7 +320,7 @@ def run_case(ctx, res, env, case, lines, expect, meta, light=False):
             Scorer.log = []
             try:
                 h = score_chunk(scorer=Scorer(), thetas=None, screen=scr, distance_matrix=None, rng=np.random.default_rng(0),
-                                n_chunks=n, chunk_index=idx, batch_plate_ids=list(batch))
+                                n_chunks=n, chunk_index=idx, batch_plate_ids=bp())
                 handed = Scorer.log[-1]
                 out = "ok " + S.lst(("%d:%s" % (k, S.sel_tok(sel)) for k, sel, _ in handed), ";")
             except Exception as e:   # noqa: BLE001
@@ -389,7 +398,7 @@ def run_case(ctx, res, env, case, lines, expect, meta, light=False):
                                      [(a, enc_score(b)) for a, b in got], [(a, enc_score(b)) for a, b in want], signature="C06:concat-multiset")
                     try:
                         sel = select_next_plate(scores=comb, screen=scr, policy=(Policy() if pol is not None else None),
-                                                batch_plate_ids=list(batch), rng=np.random.default_rng(0))
+                                                batch_plate_ids=bp(), rng=np.random.default_rng(0))
                         got_id = None if sel is None else int(sel.plate_id)
                         stext = "ok " + ("-1" if got_id is None else str(got_id))
                         if total:
